@@ -2,6 +2,7 @@ import warnings
 import numpy as np
 from numpy.linalg import norm
 from sklearn.exceptions import ConvergenceWarning
+from sklearn.utils import check_array
 from sklearn.linear_model._base import LinearModel, RegressorMixin
 
 from skglm.penalties import L1
@@ -166,6 +167,10 @@ class SqrtLasso(LinearModel, RegressorMixin):
         coefs : array, shape (n_features, n_alphas)
             Coefficients along the path.
         """
+        # the solver reads (data, indptr, indices) as CSC and dense arrays column-wise
+        X = check_array(X, accept_sparse="csc", dtype=np.float64, order="F")
+        y = check_array(y, ensure_2d=False, dtype=np.float64)
+
         self.solver_ = ProxNewton(
             p0=self.p0, tol=self.tol, max_iter=self.max_iter,
             max_pn_iter=self.max_pn_iter, verbose=self.verbose,
